@@ -45,3 +45,54 @@ Fixpoint cand_loop (fuel d fend : nat) (st : list nat * list nat) : list nat * (
                    else let '(r, st') := cand_loop f d fend (dnext d p1 st) in (p1 :: r, st')
       end
   end.
+
+(* ------------------------------------------------------------------ andLineMatchTree.matches, operationally *)
+(** The loop of matchtree.go:734-763 at the level of line numbers: [lines] are the distinct line numbers of the
+    candidates of the child with the fewest candidates (ascending), [children] the line numbers of the candidates of
+    every other child (ascending).  Comparing a candidate's byte offset with lines[i].start / lines[i].end is comparing
+    its line number with the line number i (newline index arithmetic is C03).
+    outcome of scanning one child for line L: it has a candidate on L / it is exhausted / its next candidate is on a
+    later line x (then the Go code jumps to the first line >= x and starts over). *)
+Inductive al_out := AlHit | AlMiss | AlBeyond (x : nat).
+Fixpoint al_child (L : nat) (c : list nat) : list nat * al_out :=
+  match c with
+  | [] => ([], AlMiss)
+  | x :: r => if x <? L then al_child L r else if x =? L then (c, AlHit) else (c, AlBeyond x)
+  end.
+(** all children in order: (updated candidate lists, number of hits, Some x = jump requested by some child) *)
+Fixpoint al_children (L : nat) (cs : list (list nat)) : list (list nat) * nat * option nat :=
+  match cs with
+  | [] => ([], 0, None)
+  | c :: r =>
+      match al_child L c with
+      | (c', AlBeyond x) => (c' :: r, 0, Some x)
+      | (c', AlHit) => let '(r', h, j) := al_children L r in (c' :: r', S h, j)
+      | (c', AlMiss) => let '(r', h, j) := al_children L r in (c' :: r', h, j)
+      end
+  end.
+Fixpoint al_lines (fuel : nat) (lines : list nat) (cs : list (list nat)) : bool :=
+  match fuel with
+  | 0 => false
+  | S f =>
+      match lines with
+      | [] => false
+      | L :: rest =>
+          match al_children L cs with
+          | (cs', _, Some x) => al_lines f (drop_while (fun l => l <? x) rest) cs'
+          | (cs', h, None) => if h =? length cs then true else al_lines f rest cs'
+          end
+      end
+  end.
+
+(** lines of the base child: consecutive duplicates removed (matchtree.go:713-723) *)
+Fixpoint dedup_adj (l : list nat) : list nat :=
+  match l with
+  | x :: ((y :: _) as r) => if x =? y then dedup_adj r else x :: dedup_adj r
+  | _ => l
+  end.
+(** the whole same-line test of andLineMatchTree.matches for children with candidate offsets [vs] (each ascending),
+    [f] = index of the child with the fewest candidates, [line] = newline index lookup (atOffset) *)
+Definition remove_nth {A} (f : nat) (l : list A) : list A := firstn f l ++ skipn (S f) l.
+Definition andline_alg (line : nat -> nat) (vs : list (list nat)) (f : nat) : bool :=
+  let base := dedup_adj (map line (nth f vs [])) in
+  al_lines (S (length base)) base (map (map line) (remove_nth f vs)).
